@@ -1,4 +1,4 @@
-import BaoModel.Ops4
+import BaoModel.Ops5
 
 open Bao Bao.Ops
 
@@ -35,6 +35,8 @@ def dispatch (op : String) (args : List String) (impl : String) : Verdict :=
   | "fragob" => opFragOb args impl
   | "fragenc" => opFragEnc args impl
   | "faults" => opFaults args impl
+  | "store" => opStore args impl
+  | "misc" => opMisc args impl
   | _ => bad s!"unknown op {op}"
 
 /-- one input line `op arg ... | impl output` → one verdict line
